@@ -186,6 +186,17 @@ CLAIMS['C11'] = dict(
          'output is returned unmodified. Does not decide optimality/KKT (delegated to scipy/numpy), fixed points or convergence.',
     technique='exact normal forms of the update expressions per branch, sibling diff modulo a named term, structural wiring of the stacked system')
 
+CLAIMS['C10'] = dict(
+    text='Decides structural necessary conditions on both integrators, both emitters and the map setters: every store into the '
+         'spectrum is dominated by "source index > -1" and the index is a voxel_map value (cells mapped to -1 receive nothing); '
+         'accumulate/flush pairing -- the length accumulated for the current source is stored before every reset and after the '
+         'loop, is accumulated for every sample taken while a source is active, and the amount per sample is dt = length/n, '
+         'independent of the cell indices (so merging cells cannot change a source total and nothing of the chord inside active '
+         'cells is dropped); the voxel_map subscripts are in grid axis order, each index from its own coordinate and step, the phi '
+         'index from an angle reduced modulo the period; bins = voxel_map.max() + 1 in both setters and masked-out cells map to -1. '
+         'Does not decide chord-length accuracy (two-step bound), edges/corners/tangent rays or angular wrap numerics.',
+    technique='guard dominance, accumulate/flush ordering on the structured CFG, index/axis agreement')
+
 # ---- everything not claimed above is pending / not applicable
 _pending = 'check not built yet in this session (see DESIGN.md build order); not claimed until it is'
 for _p in ['C%02d' % i for i in range(1, 21)]:
